@@ -1364,7 +1364,8 @@ package larking
 // concurrently and their interleavings are outside these contracts). The pump that
 // copies the client's messages to the backend must forward the end of the client's
 // stream: a backend that reads until io.EOF otherwise never answers.
-//@ func createConnHandler$1$1 serves C10 partial ghost count post
+//@ func createConnHandler$1$1 serves C10 partial ghost count post inv.init inv.keep
 //@   count closes `clientStream.CloseSend(`
 //@   ensures [client-half-close-reaches-the-backend C10] inErr == io.EOF ==> closes == 1
+//@   loop 1 invariant closes == 0
 //@   witness verifWitnessProxyHalfClose for client-half-close
